@@ -172,16 +172,6 @@ class ConcurrentExecutorFutureResults(ConcurrentExecutorListResults):
         super().__init__(session, statements_and_params, execution_profile)
         self.future = future
 
-    def _put_result(self, result, idx, success):
-        super()._put_result(result, idx, success)
-        with self._condition:
-            if self._current == self._exec_count:
-                if self._exception and self._fail_fast:
-                    self.future.set_exception(self._exception)
-                else:
-                    sorted_results = [r[1] for r in sorted(self._results_queue)]
-                    self.future.set_result(sorted_results)
-
 
 def execute_concurrent_async(
     session,
@@ -202,9 +192,10 @@ def execute_concurrent_async(
         future=future
     )
 
-    # Execute concurrently
+    # Execute concurrently; execute() returns (or raises) once every statement is done, so the
+    # future is completed here, exactly once, rather than from the per-statement callbacks
     try:
-        executor.execute(concurrency=concurrency, fail_fast=raise_on_first_error)
+        future.set_result(executor.execute(concurrency=concurrency, fail_fast=raise_on_first_error))
     except Exception as e:
         future.set_exception(e)
 
